@@ -148,7 +148,10 @@ async function run (req) {
         const orig = compileModule(cur.code, step.file)
         const rewr = compileModule(cur.content, step.file)
         const userFrames = []
-        const userHandler = (e, cs) => { for (const c of cs) { userFrames.push({ fn: c.getFunctionName(), file: c.getFileName(), line: c.getLineNumber(), col: c.getColumnNumber(), raw: c.callSite ? { file: c.callSite.getFileName(), line: c.callSite.getLineNumber(), col: c.callSite.getColumnNumber() } : null, isEval: c.isEval(), str: (() => { try { return String(c) } catch (e) { return 'toString threw' } })() }) } return 'handled' }
+        const apiProblems = []
+        // a handler may use any method of V8's CallSite API on what it is given
+        const CALLSITE_API = ['getThis', 'getTypeName', 'getFunction', 'getFunctionName', 'getMethodName', 'getFileName', 'getLineNumber', 'getColumnNumber', 'getEvalOrigin', 'isToplevel', 'isEval', 'isNative', 'isConstructor', 'isAsync', 'isPromiseAll', 'getPromiseIndex', 'getScriptNameOrSourceURL', 'getScriptHash', 'getEnclosingLineNumber', 'getEnclosingColumnNumber', 'getPosition', 'toString']
+        const userHandler = (e, cs) => { for (const c of cs) { if (c && c.callSite) { for (const m of CALLSITE_API) { if (typeof c.callSite[m] === 'function') { let bad = null; try { if (typeof c[m] !== 'function') bad = 'missing'; else c[m]() } catch (err) { bad = 'threw ' + (err && err.message) } if (bad && !apiProblems.length) apiProblems.push({ method: m, what: bad }) } } } userFrames.push({ fn: c.getFunctionName(), file: c.getFileName(), line: c.getLineNumber(), col: c.getColumnNumber(), raw: c.callSite ? { file: c.callSite.getFileName(), line: c.callSite.getLineNumber(), col: c.callSite.getColumnNumber() } : null, isEval: c.isEval(), str: (() => { try { return String(c) } catch (e) { return 'toString threw' } })() }) } return 'handled' }
         // all three runs are started from the same source line, so that the harness' own frames are identical
         const runs = [[orig, rawHandler], [rewr, p.getPrepareStackTrace(userHandler)], [rewr, p.getPrepareStackTrace(undefined)]]
         const outs = []
@@ -182,6 +185,7 @@ async function run (req) {
             if (g.file !== e.file || g.line !== e.line || g.col !== e.col) { problems.push({ step: i, kind: 'foreign-frame-changed', mode: 'user', frame: k, expected: e, got: g }); break }
           }
         }
+        if (apiProblems.length) late.push({ step: i, kind: 'callsite-api-incomplete', mode: 'user', site: step.site, detail: apiProblems[0] })
         // string path
         if (typeof gotStr.stack !== 'string') { problems.push({ step: i, kind: 'string-stack-not-string' }); continue }
         const S = parseStackString(gotStr.stack, E.length)
